@@ -328,26 +328,34 @@ def St.cost (st : St) : Rat :=
 def St.moveBlocks (st : St) : St :=
   st.order.foldl (fun st bid => st.refreshBlock bid) st
 
+/-- the split as all callers perform it: `Block::split` on constraint `ci` of block `old`, the old
+    block is marked deleted, and `ci` goes back on the `inactive` list; returns the new block ids
+    (the callers then insert them into `Blocks::m_blocks`) -/
+def St.splitOn (st : St) (old : Nat) (ci : Nat) : St × Nat × Nat :=
+  let r := st.split old ci
+  let st := r.1.markDeleted old
+  ({ st with inactive := st.inactive.push ci }, r.2.1, r.2.2)
+
+/-- body of the loop of `IncSolver::splitBlocks()` for the block at position `i` of `m_blocks` -/
+def St.splitBlockStep (st : St) (i : Nat) : St :=
+  let bid := st.order[i]!
+  let r := st.findMinLM bid
+  match r.2 with
+  | none => r.1
+  | some (ci, lmv, gap) =>
+    let st := r.1.note (lmv - LAGRANGIAN_TOLERANCE)
+    if lmv < LAGRANGIAN_TOLERANCE then
+      let st := st.note gap
+      let old := (st.vars[(st.cons[ci]!).l]!).block
+      let q := st.splitOn old ci
+      { q.1 with order := (q.1.order.push q.2.1).push q.2.2, nSplit := q.1.nSplit + 1 }
+    else st
+
 /-- `IncSolver::splitBlocks()` -/
 def St.splitBlocks (st : St) : St :=
   let st := st.moveBlocks
   let len := st.order.size
-  let st := (List.range len).foldl (init := st) fun st i =>
-    let bid := st.order[i]!
-    let (st, m) := st.findMinLM bid
-    match m with
-    | none => st
-    | some (ci, lmv, gap) =>
-      let st := st.note (lmv - LAGRANGIAN_TOLERANCE)
-      if lmv < LAGRANGIAN_TOLERANCE then
-        let st := st.note gap
-        let old := (st.vars[(st.cons[ci]!).l]!).block
-        let (st, lid, rid) := st.split old ci
-        let st := { st with order := (st.order.push lid).push rid, nSplit := st.nSplit + 1 }
-        let st := st.markDeleted old
-        { st with inactive := st.inactive.push ci }
-      else st
-  st.cleanup
+  ((List.range len).foldl St.splitBlockStep st).cleanup
 
 /-- `IncSolver::mostViolated(inactive)`; returns the chosen constraint (if any), with the inactive
     list updated exactly as the code does (swap-with-last removal under the same condition) -/
@@ -383,6 +391,47 @@ inductive Outcome where
   | outOfFuel
   deriving Repr, Inhabited
 
+/-- `v->unsatisfiable=true` -/
+def St.flag (st : St) (v : Nat) : St :=
+  { st with cons := st.cons.set! v { st.cons[v]! with unsat := true } }
+
+/-- the tail of the in-block case of `IncSolver::satisfy` after `splitBetween` produced the new
+    blocks `lid`, `rid`: either `v` got satisfied by the split, or the two blocks are merged across `v` -/
+def St.afterSplit (st : St) (v lid rid : Nat) : St :=
+  match st.slack v with
+  | none => st
+  | some s =>
+    let st := st.note s
+    if s ≥ 0 then
+      { st with inactive := st.inactive.push v, order := (st.order.push lid).push rid,
+                nResat := st.nResat + 1 }
+    else
+      let r := st.mergeAcross v
+      { r.1 with order := r.1.order.push r.2 }
+
+/-- the in-block case of `IncSolver::satisfy` when no directed active path runs from right to left:
+    `splitBetween` (findMinLMBetween + split), or flag when there is no split point -/
+def St.splitBetween (st : St) (v : Nat) : St :=
+  let c := st.cons[v]!
+  let lb := (st.vars[c.l]!).block
+  let fuel := st.vars.size + 1
+  let b := st.blocks[lb]!
+  let d := computeDfdv st lb fuel st.lm #[] b.vars[0]! none
+  let st := { st with lm := d.1, fuelOut := st.fuelOut || !d.2.2.2 }
+  let p := splitPath st lb c.r fuel c.l none
+  let st := { st with fuelOut := st.fuelOut || !p.2 }
+  let cands := (p.1.getD #[]).map fun ci => (ci, st.lm[ci]!)
+  match argMinFirst cands with
+  | none =>
+    -- UnsatisfiableException: no split point
+    let st := st.flag v
+    { st with nFlagNoSplit := st.nFlagNoSplit + 1 }
+  | some (sc, _, gap) =>
+    let st := st.note gap
+    let q := st.splitOn lb sc
+    let st := { q.1 with nSplitBetween := q.1.nSplitBetween + 1 }
+    st.afterSplit v q.2.1 q.2.2
+
 /-- body of the `while` loop of `IncSolver::satisfy` for the chosen constraint `v` -/
 def St.process (st : St) (v : Nat) : St :=
   let c := st.cons[v]!
@@ -392,37 +441,19 @@ def St.process (st : St) (v : Nat) : St :=
     (st.mergeAcross v).1
   else
     let fuel := st.vars.size + 1
-    let (dirPath, ok) := isActiveDirectedPathBetween st lb fuel c.r c.l
-    let st := { st with fuelOut := st.fuelOut || !ok }
-    if dirPath then
-      { st with cons := st.cons.set! v { c with unsat := true }, nFlagPath := st.nFlagPath + 1 }
-    else
-      -- splitBetween → findMinLMBetween
-      let b := st.blocks[lb]!
-      let (lm, _, _, ok1) := computeDfdv st lb fuel st.lm #[] b.vars[0]! none
-      let st := { st with lm := lm, fuelOut := st.fuelOut || !ok1 }
-      let (path, ok2) := splitPath st lb c.r fuel c.l none
-      let st := { st with fuelOut := st.fuelOut || !ok2 }
-      let cands := (path.getD #[]).map fun ci => (ci, st.lm[ci]!)
-      match argMinFirst cands with
-      | none =>
-        -- UnsatisfiableException: no split point
-        { st with cons := st.cons.set! v { c with unsat := true }, nFlagNoSplit := st.nFlagNoSplit + 1 }
-      | some (sc, _, gap) =>
-        let st := st.note gap
-        let (st, lid, rid) := st.split lb sc
-        let st := st.markDeleted lb
-        let st := { st with inactive := st.inactive.push sc, nSplitBetween := st.nSplitBetween + 1 }
-        match st.slack v with
-        | none => st
-        | some s =>
-          let st := st.note s
-          if s ≥ 0 then
-            { st with inactive := st.inactive.push v, order := (st.order.push lid).push rid,
-                      nResat := st.nResat + 1 }
-          else
-            let (st, keep) := st.mergeAcross v
-            { st with order := st.order.push keep }
+    let dp := isActiveDirectedPathBetween st lb fuel c.r c.l
+    let st := { st with fuelOut := st.fuelOut || !dp.2 }
+    if dp.1 then
+      let st := st.flag v
+      { st with nFlagPath := st.nFlagPath + 1 }
+    else st.splitBetween v
+
+/-- loop condition of `IncSolver::satisfy`:
+    `v->equality || ((v->slack() < ZERO_UPPERBOUND) && !v->active)` -/
+def St.goCond (st : St) (v : Nat) : Bool :=
+  (st.cons[v]!).eq || (match st.slack v with
+                       | some s => s < ZERO_UPPERBOUND && !(st.cons[v]!).active
+                       | none => false)
 
 /-- the `while` loop of `IncSolver::satisfy` -/
 def St.satisfyLoop : Nat → St → St
@@ -432,11 +463,7 @@ def St.satisfyLoop : Nat → St → St
     match mv with
     | none => st
     | some v =>
-      let c := st.cons[v]!
-      let go : Bool := c.eq || (match st.slack v with
-                                | some s => s < ZERO_UPPERBOUND && !c.active
-                                | none => false)
-      if go then St.satisfyLoop fuel (st.process v) else st
+      if st.goCond v then St.satisfyLoop fuel (st.process v) else st
 
 /-- reported positions (`copyResult`) -/
 def St.positions (st : St) : Array Rat := (Array.range st.vars.size).map st.pos
